@@ -120,9 +120,23 @@ def check(ctx):
         rs = [x for x in P.calls_in(clr) if isinstance(x.func, ast.Attribute) and x.func.attr == "reset" and is_self_attr(x.func.value)]
         ok = bool(rs) and all(x.args and isinstance(x.args[0], ast.Constant) and x.args[0].value is not None for x in rs)
         ctx.ob("C06.e", f"{cname}.clear refills every delay record with its resting value", ok, "", clr.where)
+    monitor_consumer_consistency(ctx)
+    # ---------------- (f) every delay record is one the dt / delay setters reach (shared with C04.e)
+    from . import c04
+    c04.records_sized_and_registered(ctx, "C06.f/C04.e")
+
+
+def monitor_consumer_consistency(ctx, RULE="C06.d", only=None):
+    """Every trainer monitor and the read of it in forward agree on who applies the delay (raw synapse spikes read through
+    the connection's selector, or already-delayed synspike peeked) - shared with C08.a for the two- and three-factor
+    trainers (`only` = class-name filter)."""
+    P = ctx.prog
     # ---------------- (d) trainers
     classes = T.trainer_classes(P)
-    ctx.require("C06.d", "trainer classes", len(classes), 14)
+    if only is None:
+        ctx.require(RULE, "trainer classes", len(classes), 14)
+    else:
+        classes = [c for c in classes if only(c)]
     npairs = 0
     for c in classes:
         rc, f = c.methods["register_cell"], c.methods["forward"]
@@ -134,7 +148,7 @@ def check(ctx):
         uses_delayed = any(isinstance(x, ast.Name) and x.id == "delayed" for s in sites.values() for x in ast.walk(s.call))
         if uses_delayed:
             ok = len(dl) == 1 and ast.unparse(dl[0].value) == "state.delayed and cell.connection.delayedby is not None"
-            ctx.ob("C06.d", f"{c.name}.register_cell: delayed = state.delayed and the connection has delays", ok, ast.unparse(dl[0].value) if dl else "missing", rc.where)
+            ctx.ob(RULE, f"{c.name}.register_cell: delayed = state.delayed and the connection has delays", ok, ast.unparse(dl[0].value) if dl else "missing", rc.where)
         has_delay_term = any(isinstance(x, ast.Attribute) and dotted(x) == "cell.connection.delay" for x in ast.walk(loop))
         if not has_delay_term:
             # a per-cell copy of the delays made at registration also applies the delay once (whether it may go stale is C18.a's concern)
@@ -170,7 +184,7 @@ def check(ctx):
                 if deps:
                     npairs += 1
                     ok = opts == ["connection.synspike"] and all(sa.endswith(".latest") for k in deps for sa in sites[k].subattrs)
-                    ctx.ob("C06.d", f"{c.name} monitor '{name}' (read by {deps} through .latest) records connection.synspike", ok, f"{opts}", P.loc(rc, site.call))
+                    ctx.ob(RULE, f"{c.name} monitor '{name}' (read by {deps} through .latest) records connection.synspike", ok, f"{opts}", P.loc(rc, site.call))
                 continue
             dur = site.reducer_arg("duration")
             for rd, stack in reads:
@@ -194,17 +208,17 @@ def check(ctx):
                     in_delayed = ("state.delayed and cell.connection.delayedby", "T") in cond
                     in_plain = ("state.delayed and cell.connection.delayedby", "F") in cond
                     ok = (in_delayed and uses_sel and meth in ("view", "select")) or (in_plain and not uses_sel and meth in ("peek", "read"))
-                    ctx.ob("C06.d", f"{c.name}.forward: monitors['{name}'].{meth}(...) {'with' if uses_sel else 'without'} selector", ok,
+                    ctx.ob(RULE, f"{c.name}.forward: monitors['{name}'].{meth}(...) {'with' if uses_sel else 'without'} selector", ok,
                            "delayed view iff (state.delayed and delayedby), present value otherwise" if ok else
                            f"read under {cond}: the monitor records {'/'.join(opts)} depending on `delayed`, so the delay is applied twice or not at all on this path",
                            P.loc(f, rd), None)
                 elif opts == ["connection.synspike"]:
                     ok = not uses_sel and meth in ("peek", "read")
-                    ctx.ob("C06.d", f"{c.name}.forward: monitors['{name}'] (connection.synspike) is peeked", ok,
+                    ctx.ob(RULE, f"{c.name}.forward: monitors['{name}'] (connection.synspike) is peeked", ok,
                            "" if ok else "connection.synspike is already delay-shifted; a selector read shifts it again", P.loc(f, rd), None)
                 elif opts == ["synapse.spike"]:
                     ok = not uses_sel and meth in ("peek", "read") and has_delay_term
-                    ctx.ob("C06.d", f"{c.name}.forward: monitors['{name}'] (raw synapse.spike) is peeked and the delay enters explicitly", ok,
+                    ctx.ob(RULE, f"{c.name}.forward: monitors['{name}'] (raw synapse.spike) is peeked and the delay enters explicitly", ok,
                            "" if ok else "raw spikes are read without any delay adjustment", P.loc(f, rd), None)
             if len(opts) == 2:
                 okd = isinstance(dur, ast.IfExp) and isinstance(dur.test, ast.Name) and dur.test.id == "delayed" and \
@@ -213,6 +227,8 @@ def check(ctx):
                 a_ = site.attr
                 oka = isinstance(a_, ast.IfExp) and isinstance(a_.test, ast.Name) and a_.test.id == "delayed" and a_.body.value == "synapse.spike" and a_.orelse.value == "connection.synspike"
                 okt = "delayed" in site.tags and isinstance(site.tags["delayed"], ast.Name) and site.tags["delayed"].id == "delayed"
-                ctx.ob("C06.d", f"{c.name} monitor '{name}': raw spikes with a delayedby-long record iff delayed (and tagged so)", okd and oka and okt,
+                ctx.ob(RULE, f"{c.name} monitor '{name}': raw spikes with a delayedby-long record iff delayed (and tagged so)", okd and oka and okt,
                        f"attr {ast.unparse(a_)}, duration {ast.unparse(dur) if dur is not None else None}", P.loc(rc, site.call))
-    ctx.require("C06.d", "monitor/consumer pairs", npairs, 30)
+    if only is None:
+        ctx.require(RULE, "monitor/consumer pairs", npairs, 30)
+    return npairs
